@@ -29,6 +29,9 @@ type Spec struct {
 	// SingleFile: the new build is not a directory but one regular file (New has exactly one file entry); it is
 	// walked, signed, diffed and validated through its path, as butler does with single-file builds
 	SingleFile bool `json:"single_file,omitempty"`
+	// UsedValidator: the ValidatorContext that validates the pristine build has validated a damaged copy of it
+	// before (one byte flipped in the first non-empty file); nothing of that run may stick to the context
+	UsedValidator bool `json:"used_validator,omitempty"`
 }
 
 // refWeak is the weak hash written from the format description:
@@ -180,6 +183,20 @@ func check(s Spec) h.Result {
 	// validation of the pristine build against the diff-time signature
 	wp := filepath.Join(d, "wounds.pww")
 	vctx := &pwr.ValidatorContext{WoundsPath: wp, Consumer: h.Quiet()}
+	if s.UsedValidator && !s.SingleFile {
+		dmg := filepath.Join(d, "damaged")
+		if err := s.New.Write(dmg); err == nil {
+			for _, e := range s.New {
+				if e.Kind == h.KFile && e.C.Len() > 0 {
+					h.ApplyDmg(dmg, h.Dmg{Path: e.Path, Op: "flip", Off: 0})
+					vctx.Validate(context.Background(), dmg, si)
+					os.Remove(wp)
+					cl = append(cl, "validator:context-used-on-a-damaged-copy-before")
+					break
+				}
+			}
+		}
+	}
 	if err := vctx.Validate(context.Background(), nd, si); err != nil {
 		return h.Result{Fail: fmt.Sprintf("wounds-file validation of the pristine build failed: %v", err), Classes: cl}
 	}
@@ -255,6 +272,7 @@ var prop = h.Prop[Spec]{
 		if rapid.IntRange(0, 2).Draw(t, "jitter") == 0 {
 			s.Jitter = rapid.SliceOfN(rapid.Byte(), 1, 16).Draw(t, "jitter-bytes")
 		}
+		s.UsedValidator = rapid.IntRange(0, 3).Draw(t, "used-validator") == 0
 		if rapid.IntRange(0, 7).Draw(t, "single-file-build") == 0 {
 			s.SingleFile = true
 			s.New = h.Tree{{Path: rapid.SampledFrom([]string{"a", "game.bin", "a..b", "A"}).Draw(t, "single-name"), Kind: h.KFile,
